@@ -378,6 +378,8 @@ def cases(ctx):
     ctx.extra['exhaustive_subspaces'] = [
         'all operation sequences of length 1..%d over the %d-operation alphabet ENUM_OPS (names a/b/c addressed '
         'through a/A, b/B, c/C) from %d start states' % (ENUM_LEN[ctx.tier], len(ENUM_OPS), len(ENUM_STARTS))]
+    if ctx.shard == 0:
+        yield {'kind': 'repo-tests'}        # the repository's own tests under K1/K2, as one more workload
     for case in enum_cases(ctx):
         yield case
     r = ctx.rng('histories')
@@ -838,6 +840,9 @@ def setup(ctx):
 
 
 def run_case(ctx, case):
+    if case.get('kind') == 'repo-tests':
+        from .. import repotests
+        return repotests.run_repo_tests_under_monitors(ctx, ('K1', 'K2'))
     kmon.reset()
     v, info = execute(ctx, case)
     if info['variant_use'] and info['restructured']:
